@@ -86,6 +86,19 @@ func (r *recReader) Read(b []byte) (int, error) {
 	return len(b), nil
 }
 
+// seenPub reports whether a local public value was already produced earlier in this behaviour (C09: locally generated
+// exponents differ from call to call)
+func seenPub(e *Env, pub []byte) bool {
+	m, _ := e.objs["pubs"].(map[string]bool)
+	if m == nil {
+		m = map[string]bool{}
+		e.objs["pubs"] = m
+	}
+	was := m[string(pub)]
+	m[string(pub)] = true
+	return was
+}
+
 func readerOf(spec J) *recReader {
 	if spec == nil || gs(spec, "mode") == "" || gs(spec, "mode") == "system" {
 		return nil
@@ -281,6 +294,7 @@ func actNewIkeSA(e *Env, a J) J {
 	obs["faultok"] = r == nil || !(r.failAt >= 0 && r.reads > r.failAt) || (err != nil && k == nil && pub == nil)
 	if err == nil && k != nil {
 		obs["pub"] = octOf(pub)
+		obs["repeat"] = seenPub(e, pub)
 		keyObs(k, a, obs)
 		registerSA(e, gs(a, "name"), k, gj(a, "suite"))
 	}
@@ -319,6 +333,7 @@ func actDhCalc(e *Env, a J) J {
 	if err == nil {
 		obs["pub"] = octOf(pub)
 		obs["shared"] = octOf(shared)
+		obs["repeat"] = seenPub(e, pub)
 	}
 	return obs
 }
